@@ -11,3 +11,36 @@ package rtsp
 //@ func (*PullSession).UniqueKey
 //@   trusted
 //@ end
+
+// C14: RTSP authentication. A well-formed Basic header is classified Basic, a Digest header Digest;
+// CheckAuthorization accepts Basic credentials exactly when both strings match the configured ones.
+//@ func (*Auth).ParseAuthorization
+//@   opaque
+//@   props C14
+//@   assert after "authBase64Str := ..." [C14.rtsp.basic.cred] authBase64Str == authStr[6:]
+//@   assert after "authDigestStr := ..." [C14.rtsp.digest.cred] authDigestStr == authStr[7:]
+//@   ensures [C14.rtsp.basic.typ] strings.HasPrefix(authStr, "Basic ") && result == nil ==> a.Typ == "Basic"
+//@   ensures [C14.rtsp.digest.typ] !strings.HasPrefix(authStr, "Basic ") && strings.HasPrefix(authStr, "Digest ") ==> a.Typ == "Digest"
+//@   ensures [C14.rtsp.other.typ] !strings.HasPrefix(authStr, "Basic ") && !strings.HasPrefix(authStr, "Digest ") ==> a.Typ == old(a.Typ)
+//@ end
+//@ func (*Auth).CheckAuthorization
+//@   opaque
+//@   props C14
+//@   ensures [C14.rtsp.basic.check] a.Typ == "Basic" ==> (result == (username == a.Username && password == a.Password))
+//@   ensures [C14.rtsp.unknown.reject] a.Typ != "Basic" && a.Typ != "Digest" ==> !result
+//@ end
+//@ func PackResponseAuthorized
+//@   ensures len(result) > 0
+//@ end
+// A DESCRIBE is let through (empty response, nil error) only with credentials of the configured method that check out.
+//@ func (*ServerCommandSession).handleAuthorized
+//@   props C14
+//@   ensures [C14.rtsp.accept.basic] result1 == nil && result0 == "" && session.authConf.AuthMethod == 0 ==> session.auth.Typ == "Basic" && session.auth.Username == session.authConf.UserName && session.auth.Password == session.authConf.PassWord
+//@   ensures [C14.rtsp.accept.method] result1 == nil && result0 == "" ==> (session.authConf.AuthMethod == 0 && session.auth.Typ == "Basic") || (session.authConf.AuthMethod == 1 && session.auth.Typ == "Digest")
+//@   ensures [C14.rtsp.valid.basic] result1 != nil && session.authConf.AuthMethod == 0 ==> !(session.auth.Typ == "Basic" && session.auth.Username == session.authConf.UserName && session.auth.Password == session.authConf.PassWord)
+//@ end
+//@ func (*Auth).getV
+//@   props C14
+//@   opaque
+//@   mode int
+//@ end
